@@ -75,6 +75,7 @@ inductive Obs where
 
 inductive COp where
   | ptype | dtype | str
+  | pure          -- a read that touches no lazily built type: hash key, equality, instance-of of the shared value
   deriving DecidableEq, Repr
 
 inductive CPC where
@@ -117,6 +118,7 @@ def startOp (cfg : Cfg) (s : Shared) (log : List Obs) (rest : List COp) : COp â†
     match reduced cfg s with
     | (s', none) => (s', { pc := .fillRed false, ops := rest, log := log })
     | (s', some _) => (s', { pc := .idle, ops := rest, log := log ++ [.full] })
+  | .pure => (s, { pc := .idle, ops := rest, log := log ++ [.full] })
   | .dtype =>
     match s.det with
     | .done => (s, { pc := .idle, ops := rest, log := log ++ [.full] })
